@@ -132,6 +132,14 @@ CHECKS = {
             "is. The same states are the instants a concurrent reader can observe.",
             "process crash only (no fsync claim); os.replace atomic; 3 surviving-prefix variants; tfrec file I/O not interposable",
             "DESIGN.md 3/C06"),
+    "C09": ("symx+fsx",
+            "commutativity argument with premises checked by bounded symbolic execution (z3-forked writer count, loads, completion permutation) under an FS interposer recording per-writer footprints",
+            "On every path the real write_multiprocessing runs with a Pool contract stub evaluating workers in the solver-chosen "
+            "order across a pickle boundary; write-sets are private and pairwise disjoint, no writer reads what another writes, "
+            "shared directory creation tolerates a lost race, results/merge are in argument order, outcome equals the sequential "
+            "run (multisets, per-writer order, audit, check()); one real multiprocessing.Pool run anchors the stub.",
+            "Pool.imap contract; uuid4 distinctness; disjoint footprints imply schedule independence; <=3 writers",
+            "DESIGN.md 3/C09"),
 }
 
 PENDING_REASON = "check not built yet in this round (work in progress; see DESIGN.md section 3 for the planned encoding)"
